@@ -15,7 +15,7 @@ from .gen import q2s
 
 OBL = [("Qsx.Props.C10", t) for t in ["Qsx.Props.C10.scan_literal", "Qsx.Props.C10.scan_consumes_le",
                                      "Qsx.Props.C10.scan_no_div_zero", "Qsx.Props.C10.scan_exponent_guard",
-                                     "Qsx.Props.C10.exponent_below_100000_ok"]]
+                                     "Qsx.Props.C10.exponent_below_100000_ok", "Qsx.Props.C10.has_colon_spec"]]
 
 STOP = [" ", "\n", "x", "\t", ")", "<", ">", "=", ":", "a", "_", ""]
 
